@@ -4615,7 +4615,10 @@ class NetCDFWrite(IOWrite):
                     self.implementation.nc_get_group_attributes(f)
                 )
 
-        for groups, fields in xx.items():
+        # Parent groups first, so that a sub-group need not repeat an
+        # attribute that it inherits with the same value
+        written = {}
+        for groups, fields in sorted(xx.items(), key=lambda x: len(x[0])):
             this_group_attributes = group_attributes[groups]
 
             f0 = fields[0]
@@ -4646,6 +4649,27 @@ class NetCDFWrite(IOWrite):
                 this_group_attributes[attr] = self.implementation.get_property(
                     f0, attr
                 )
+
+            # Do not repeat an attribute that the nearest parent group
+            # which has it (as written by this method) has with the
+            # same value: it applies to this group anyway, and
+            # writing a dataset that was read would otherwise copy
+            # the attributes of a group to all of its sub-groups.
+            inherited = []
+            for attr, value in this_group_attributes.items():
+                for i in range(len(groups) - 1, 0, -1):
+                    parent_attributes = written.get(groups[:i], {})
+                    if attr in parent_attributes:
+                        if self.implementation.equal_properties(
+                            parent_attributes[attr], value
+                        ):
+                            inherited.append(attr)
+
+                        break
+
+            written[groups] = this_group_attributes.copy()
+            for attr in inherited:
+                this_group_attributes.pop(attr)
 
             nc = g["netcdf"]
             for group in groups:
